@@ -5,7 +5,6 @@ CONSTANTS
     UserClasses = {"U1", "U2", "U3"}
     Inconsistent = {"U3"}
     CandSymbols = {"X", "Xa", "L", "x"}
-    ValidSymbols = {"X", "Xa", "L"}
     ResetClearsPrivate = TRUE
     MaxHist = 5
     Record = FALSE
